@@ -799,6 +799,7 @@ func (tk *tokenizer) consumeValueList(endChar byte) []Token {
 					if !tk.skipComments {
 						out = append(out, Comment{stringVal{pos: tokenPos, Value: string(tk.src[tk.previousPos+2:])}})
 					}
+					tk.pos = L // an unterminated comment extends to the end of the input
 					return out
 				}
 				if !tk.skipComments {
